@@ -43,11 +43,13 @@ def _digest(obj):
     return m.hexdigest()
 
 
-def array_form(arr, D):
+def array_form(arr, D, level=None):
     """'vector' / 'matrix' / 'bad' for an array that should describe dimension D."""
     shp = getattr(arr, "shape", None)
     if shp is None:
         return "bad"
+    if D == 1 and tuple(shp) == (1, 1):
+        return "matrix" if level == MATRIX else "vector"  # (1,1) is both
     if tuple(shp) == (D, 1):
         return "vector"
     if tuple(shp) == (D, D):
@@ -136,6 +138,7 @@ class Snapshot:
         self.handle_container = {}  # ce name -> container index (or None)
         self.problems = []  # (property, code, detail)
         self.contraction = None
+        self.too_big = False
 
     def live(self):
         return [n for n, m in self.sub.items() if not m["measured"]]
@@ -288,9 +291,7 @@ def snapshot(world) -> Snapshot:
         level = _lvl(ps.expansion_level)
         D = int(np.prod(dims)) if all(d > 0 for d in dims) else -1
         arr = ps.state
-        form = array_form(arr, D) if D > 0 else "bad"
-        if form == "matrix" and D == 1 and level == VECTOR:
-            form = "vector"
+        form = array_form(arr, D, level) if D > 0 else "bad"
         blk = Block(
             "ps",
             "ps:%s#%d" % (S.containers[ci]["handles"][0], pi),
@@ -328,7 +329,7 @@ def snapshot(world) -> Snapshot:
         dims = [S.sub[n]["dims"] for n in mem]
         D = int(np.prod(dims)) if all(d > 0 for d in dims) else -1
         level = _lvl(env.expansion_level)
-        form = array_form(env.state, D) if D > 0 else "bad"
+        form = array_form(env.state, D, level) if D > 0 else "bad"
         blk = Block("env", en, mem, dims, level, form, env.state, client=world.client_of(en))
         S.blocks.append(blk)
     # own states
@@ -348,9 +349,7 @@ def snapshot(world) -> Snapshot:
                 S.problem("C07", "W07:label-out-of-range", f"{name}: label {st} dims {d}")
                 blk.form = "bad"
         else:
-            form = array_form(st, d) if d > 0 else "bad"
-            if form == "matrix" and d == 1 and level == VECTOR:
-                form = "vector"
+            form = array_form(st, d, level) if d > 0 else "bad"
             blk = Block("own", name, [name], [d if d > 0 else 1], level, form, st)
         blk.client = world.client_of(name)
         S.blocks.append(blk)
@@ -404,6 +403,9 @@ def _check_w07(S: Snapshot):
                     )
         if b.form == "label":
             continue
+        if b.D > 2048:
+            S.too_big = True  # numerics not evaluated on very large blocks; the run stops
+            continue
         a = np.asarray(b.arr)
         if not np.all(np.isfinite(a)):
             S.problem("C07", "W07:nonfinite", tag)
@@ -420,6 +422,8 @@ def _check_w07(S: Snapshot):
             herm = float(np.max(np.abs(a - a.conj().T))) if a.size else 0.0
             if herm > TOL_HERM:
                 S.problem("C07", "W07:hermiticity", f"{tag} |rho-rho^H| = {herm:.3g}")
+            elif a.shape[0] > 1600:
+                pass  # positivity not evaluated on very large blocks (cost); see evidence assumptions
             else:
                 try:
                     w = np.linalg.eigvalsh((a + a.conj().T) / 2)
